@@ -3,6 +3,7 @@ package main
 import (
 	"encoding/json"
 	"fmt"
+	"math"
 
 	clip "github.com/bolom009/go-clipper2"
 )
@@ -62,7 +63,11 @@ func cmdC06(r *RNG, n int, e *Emitter, args []string) {
 			continue
 		}
 		if i%4 == 2 {
-			genC06Lattice(r, e, i)
+			if i%8 == 2 {
+				genC06Around(r, e, i)
+			} else {
+				genC06Lattice(r, e, i)
+			}
 			continue
 		}
 		G := grids[r.Intn(len(grids)-1)]
@@ -175,6 +180,38 @@ func genC06Lattice(r *RNG, e *Emitter, i int) {
 	}
 	e.Count("family=lattice")
 	emitC06(e, fmt.Sprint(i), clip.Paths64{p}, l, t, l+2*w, t+2*w, info)
+}
+
+// around family: a star-shaped simple polygon about the rectangle's centre whose vertices lie outside the
+// rectangle (beyond its corners) or inside it, so that the path runs round several sides without touching
+// the rectangle between its visits; every cyclic start vertex and both orientations occur
+func genC06Around(r *RNG, e *Emitter, i int) {
+	w, h := r.Range(20, 200), r.Range(20, 200)
+	l, t := r.Range(-50, 50), r.Range(-50, 50)
+	cx, cy := float64(l)+float64(w)/2, float64(t)+float64(h)/2
+	diag := math.Hypot(float64(w), float64(h)) / 2
+	nv := 5 + r.Intn(5)
+	p := make(clip.Path64, 0, nv)
+	a0 := r.Float() * 2 * math.Pi
+	for j := 0; j < nv; j++ {
+		a := a0 + 2*math.Pi*(float64(j)+0.1+0.8*r.Float())/float64(nv)
+		rad := diag * (1.05 + 1.5*r.Float())
+		if r.Intn(4) == 0 {
+			rad = diag * 0.6 * r.Float() * math.Min(float64(w), float64(h)) / (2 * diag)
+		}
+		p = append(p, clip.Point64{X: int64(math.Round(cx + rad*math.Cos(a))), Y: int64(math.Round(cy + rad*math.Sin(a)))})
+	}
+	k := r.Intn(nv)
+	p = append(append(clip.Path64{}, p[k:]...), p[:k]...)
+	if r.Bool() {
+		p = clip.ReversePath(p)
+	}
+	in := clip.Paths64{p}
+	if r.Intn(4) == 0 { // a second path lying inside
+		in = append(in, rectPath(l+w/3, t+h/3, l+w/2, t+h/2))
+	}
+	e.Count("family=around")
+	emitC06(e, fmt.Sprint(i), in, l, t, l+w, t+h, GenInfo{})
 }
 
 func emitC06(e *Emitter, idx string, in clip.Paths64, l, t, rr, b int64, info GenInfo) {
